@@ -21,7 +21,9 @@ RULE = ('honest: fixture + shipped recursive/dex proofs (model and code must acc
         'cell replaced): zero-trace forger (all-zero tables, uniform Merkle trees, oods tail = the verifier\'s own composition value) with and '
         'without the oods splice, for several (n_queries, pow bits 20..22, mined); forged output with the honest rest; every FRI inner authentication node '
         'corrupted; oods splice on the honest proof; parameter decoupling: trace halved & blow-up doubled, evaluation domain doubled with FRI '
-        'untouched, blow-up = P-2 redeclared modulo P, n_queries = 0 / 2^40, security level above the configuration. non-trivial = forged.')
+        'untouched, blow-up = P-2 redeclared modulo P, n_queries = 0 / 2^40, security level above the configuration; vacuous-FRI forger (zero trace, DEEP quotient folded honestly '
+        'down to a last layer whose degree bound equals its domain size; quick: steps 4,4,3) x 12 re-declarations of the config that try to get it past the validation '
+        '(trailing step entries, negative first step, understated last bound, no / negative blow-up, overstated input size, fewer layers). non-trivial = forged.')
 ASSUMPTIONS = ['soundness against ARBITRARY adaptive provers is not decided (only the listed forgers and the C02 sweep are run)',
                'pipeline model: static layouts']
 TRUSTED = ['forgers in harness/src/ops_forge.rs (use only public functions of the real code)', 'Python oracle: forged => not accepted']
@@ -85,6 +87,36 @@ def cases(rng, tier, feats, drv_ok):
                 out.append({'line': f'verify recursive 32 {o[3:]}', 'kind': f"forged:zero-trace{'-spliced' if sp else ''}", 'expect': 'reject', 'name': f'forge_zero({sp},{nq},{pw})'})
             else:
                 out.append({'line': 'powcfg 14', 'kind': 'forger-stopped', 'expect': 'any', 'name': o[:100]})
+    # vacuous-FRI forger: a complete, internally consistent proof of a false statement whose FRI really folds down to a last layer whose
+    # degree bound equals its domain size; the config is then re-declared in every way we can think of to get that past the
+    # validation without touching the body (the config is not in the stone5 Fiat-Shamir seed).  None may be accepted.
+    if HX and own:
+        specs = [('4,4,3', 2, 15, 20)] if tier == 'quick' else [('4,4,3', 2, 15, 20), ('4,4,4', 2, 15, 20), ('3,3', 1, 30, 20), ('4,4,4,4,4', 2, 16, 20)]
+        res, _ = fw.run_split(lambda ls, **kw: fw.run_hx(HX, ls), [f'forge_vacuous {st} {c:x} {nq:x} {pw:x}' for st, c, nq, pw in specs])
+        for (st, c, nq, pw), o in zip(specs, res):
+            nm = f'forge_vacuous({st},{c},{nq},{pw})'
+            if not o.startswith('ok '):
+                out.append({'line': 'powcfg 14', 'kind': 'forger-stopped', 'expect': 'any', 'name': o[:100]}); continue
+            sec = nq * c + pw
+            b = PL.Proof(o[3:].split(' '), 'recursive', sec, nm)
+            steps = b.v[I['cfg.fri.fri_step_sizes']]; nl = b.v[I['cfg.fri.n_layers']]; last = b.v[I['cfg.fri.log_last_layer_degree_bound']]
+            t, lis = b.v[I['cfg.log_trace_domain_size']], b.v[I['cfg.fri.log_input_size']]
+            gap = (t - (sum(steps) + last)) % P      # what the declared folding is short of the trace length (a "negative" felt)
+            S = lambda v, k, x: PL.setp(v, I[k], (), x)
+            lies = [('as-performed', b.v),
+                    ('trailing-step', S(b.v, 'cfg.fri.fri_step_sizes', steps + [gap])),
+                    ('two-trailing-steps', S(b.v, 'cfg.fri.fri_step_sizes', steps + [(gap + 1) % P, P - 1])),
+                    ('trailing-step+inner-layer', S(S(b.v, 'cfg.fri.fri_step_sizes', steps + [gap]), 'cfg.fri.inner_layers', b.v[I['cfg.fri.inner_layers']] + [[1, 1, 100]])),
+                    ('trailing-step+n_layers+1', S(S(S(b.v, 'cfg.fri.fri_step_sizes', steps + [gap]), 'cfg.fri.inner_layers', b.v[I['cfg.fri.inner_layers']] + [[1, 1, 100]]), 'cfg.fri.n_layers', nl + 1)),
+                    ('first-step-negative', S(b.v, 'cfg.fri.fri_step_sizes', [gap] + steps[1:])),
+                    ('last-bound-understated', S(b.v, 'cfg.fri.log_last_layer_degree_bound', (last + gap) % P)),
+                    ('no-blowup', S(S(b.v, 'cfg.log_trace_domain_size', lis), 'cfg.log_n_cosets', 0)),
+                    ('blowup-negative', S(S(b.v, 'cfg.log_trace_domain_size', (lis + 2) % P), 'cfg.log_n_cosets', P - 2)),
+                    ('input-size-overstated', S(b.v, 'cfg.fri.log_input_size', (lis + c) % P)),
+                    ('n_layers-1', S(b.v, 'cfg.fri.n_layers', nl - 1)),
+                    ('n_layers-1,last+step', S(S(b.v, 'cfg.fri.n_layers', nl - 1), 'cfg.fri.log_last_layer_degree_bound', last + steps[-1]))]
+            for kind, v in lies:
+                out.append({'line': b.line(v), 'kind': 'forged:vacuous-fri:' + kind, 'expect': 'reject', 'name': nm})
     return out
 
 
@@ -100,5 +132,5 @@ def oracle(c, co):
     if c['expect'] == 'ok':
         return None if co[0] == 'ok' else {'key': 'honest-rejected', 'what': f"honest proof {c['name']} rejected: {co[1][:120]}"}
     if c['expect'] == 'reject' and co[0] == 'ok':
-        return {'key': 'forgery:' + c['kind'].split(':')[1], 'what': f"FORGED proof accepted ({c['kind']}, {c['name']}): returned {co[1][:80]}"}
+        return {'key': 'forgery:' + ':'.join(c['kind'].split(':')[1:]), 'what': f"FORGED proof accepted ({c['kind']}, {c['name']}): returned {co[1][:80]}"}
     return None
